@@ -12,7 +12,12 @@ Definition str_in (x : string) (l : list string) : bool := existsb (String.eqb x
 Definition peer_kinds : list string := ["grpc_stream"; "grpc_call"; "chan_send"; "wait"; "sleep_long"].
 
 Definition is_client_site (s : bsite) : bool := str_in (bs_root s) client_roots.
-Definition peer_blocking (s : bsite) : bool := str_in (bs_kind s) peer_kinds.
+(* a site inside `if x.f == nil {..}` for a field f that this code always sets when it builds
+   the value (gen: always_set_fields) is not reached at run time: the direct stream write kept
+   for sessions without a sender (hand-built in tests) *)
+Definition unreached_fallback (s : bsite) : bool := str_in (bs_guard s) always_set_fields.
+Definition peer_blocking (s : bsite) : bool :=
+  str_in (bs_kind s) peer_kinds && negb (unreached_fallback s).
 Definition holds_lock (s : bsite) : bool := match bs_held s with [] => false | _ => true end.
 
 (* a client read/write path reaches an operation that may block on a peer while a lock is held *)
@@ -20,8 +25,8 @@ Definition bad_site (s : bsite) : bool := is_client_site s && peer_blocking s &&
 
 Definition no_blocking_under_lock : bool := forallb (fun s => negb (bad_site s)) blocking_sites.
 
-(* the one class found on the current tree (D19): a send on a replication stream reached through
-   the WAL observer callback of the replication primary *)
+(* the one class found on the pinned tree (D19, repaired by 5fc1d1b): a send on a replication
+   stream reached through the WAL observer callback of the replication primary *)
 Definition observer_fns : list string :=
   ["replication.Primary.OnWALEntryWritten"; "replication.Primary.OnWALBatchWritten"; "replication.Primary.OnWALSync"].
 Definition via_observer_send (s : bsite) : bool :=
@@ -55,16 +60,21 @@ Fixpoint reach_from (n : nat) (ps : list (string * string)) (front : list string
 Definition reaches (ps : list (string * string)) (a b : string) : bool :=
   str_in b (reach_from (length ps) ps (map snd (filter (fun p => String.eqb (fst p) a) ps))).
 
-(* the edges that lie on a cycle: a -> b with b reaching a *)
+(* the edges between different locks that lie on a cycle: a -> b with b reaching a *)
 Definition cyclic_pairs (ps : list (string * string)) : list (string * string) :=
-  filter (fun p => String.eqb (fst p) (snd p) || reaches ps (snd p) (fst p)) ps.
+  filter (fun p => negb (String.eqb (fst p) (snd p)) && reaches ps (snd p) (fst p)) ps.
+
+(* acquisitions of a lock while a lock of the same (type, field) is held: two instances (the
+   table merges instances); listed with the acquiring function so that each one is reviewed *)
+Definition self_nestings (es : list ledge) : list (string * string) :=
+  dedup (map (fun e => (le_from e, le_fn e)) (filter (fun e => String.eqb (le_from e) (le_to e)) es)).
 
 Definition lock_order_acyclic (es : list ledge) : bool :=
   match cyclic_pairs (order_pairs es) with [] => true | _ => false end.
 
 (* the lock acquisitions made by the catch-up fetch (getWALEntriesFromSequence and the WAL
    calls below it) while a replication lock is held — the poll, initial-fetch and retransmission
-   paths: without them the order is acyclic *)
+   paths (D19b, repaired by c7e8cb8): without them the order was acyclic *)
 Definition fetch_fns : list string :=
   ["replication.Primary.getWALEntriesFromSequence"; "wal.WAL.GetNextSequence"; "wal.WAL.GetEntriesFrom"].
 Definition fetch_under_replication_lock (e : ledge) : bool :=
